@@ -858,10 +858,20 @@ class SArr:
             return self.copy()
         return self._ew(o, lambda a, b: upow(to_real(a), to_real(b)), kind='f')
 
-    def __gt__(self, o): return self._ew(o, lambda a, b: a > b, 'b', nanprop=False)._cmpnan(self, o)
-    def __lt__(self, o): return self._ew(o, lambda a, b: a < b, 'b', nanprop=False)._cmpnan(self, o)
-    def __ge__(self, o): return self._ew(o, lambda a, b: a >= b, 'b', nanprop=False)._cmpnan(self, o)
-    def __le__(self, o): return self._ew(o, lambda a, b: a <= b, 'b', nanprop=False)._cmpnan(self, o)
+    def _half(self, r, op, o):
+        # comparison of an affine index array (np.arange) with a scalar: remember the half-line it describes
+        aff = getattr(self, 'affine', None)
+        if aff is not None and not isinstance(o, SArr):
+            try:
+                r.halfline = (op, aff, lift(o), self.shape_e[0])
+            except Unsupported:
+                pass
+        return r
+
+    def __gt__(self, o): return self._half(self._ew(o, lambda a, b: a > b, 'b', nanprop=False)._cmpnan(self, o), 'gt', o)
+    def __lt__(self, o): return self._half(self._ew(o, lambda a, b: a < b, 'b', nanprop=False)._cmpnan(self, o), 'lt', o)
+    def __ge__(self, o): return self._half(self._ew(o, lambda a, b: a >= b, 'b', nanprop=False)._cmpnan(self, o), 'ge', o)
+    def __le__(self, o): return self._half(self._ew(o, lambda a, b: a <= b, 'b', nanprop=False)._cmpnan(self, o), 'le', o)
 
     def __eq__(self, o):
         if o is None:
@@ -898,7 +908,12 @@ class SArr:
         r.off = self.off
         return r
 
-    def __and__(self, o): return self._ew(o, lambda a, b: z3.And(_asb(a), _asb(b)), 'b')
+    def __and__(self, o):
+        r = self._ew(o, lambda a, b: z3.And(_asb(a), _asb(b)), 'b')
+        ha, hb = getattr(self, 'halfline', None), getattr(o, 'halfline', None)
+        if ha is not None and hb is not None and _eq(ha[1], hb[1]) and _eq(ha[3], hb[3]):
+            r.interval = _interval_of(ha, hb)
+        return r
     def __or__(self, o): return self._ew(o, lambda a, b: z3.Or(_asb(a), _asb(b)), 'b')
     __hash__ = None
 
@@ -1371,7 +1386,21 @@ class SArr:
         return npshim.reshape(self, -1).copy()
 
     def dot(self, o):
-        raise Unsupported('dot')
+        """matrix product for a concrete small inner dimension (ASSUMED numpy contract: sum over the shared axis)"""
+        if not isinstance(o, SArr) or self.ndim != 2 or o.ndim != 2:
+            raise Unsupported('dot pattern')
+        p = concrete(self.shape_e[1])
+        if p is None or p > 8 or concrete(o.shape_e[0]) != p:
+            raise Unsupported('dot with symbolic inner dimension')
+        a, b = self, o
+
+        def elem(i, j):
+            acc = None
+            for q in range(p):
+                x, y = coerce2(a.elem(i, z3.IntVal(q)), b.elem(z3.IntVal(q), j))
+                acc = x * y if acc is None else acc + x * y
+            return acc
+        return SArr((self.shape_e[0], o.shape_e[1]), elem, 'f' if 'f' in (a.kind, b.kind) else 'i')
 
     def tolist(self):
         raise Unsupported('tolist of symbolic array')
@@ -1407,6 +1436,32 @@ def _name(c, e):
     v = c.fresh('nm', e.sort())
     c.assume(v == e)
     return v
+
+
+def _ceil_int(x):
+    x = to_real(x)
+    return -z3.ToInt(-x)
+
+
+def _interval_of(ha, hb):
+    """index interval [lo, hi) on which  (a + i  op1  c1) and (a + i  op2  c2)  both hold, for an affine array elem(i) = a + i of length n"""
+    n = ha[3]
+    lo, hi = z3.IntVal(0), n
+    for op, a, c, _ in (ha, hb):
+        d = to_real(c) - to_real(a)            # a + i op c   <=>   i op d
+        if op == 'ge':
+            b = _ceil_int(d)
+            lo = z3.If(b > lo, b, lo)
+        elif op == 'gt':
+            b = z3.ToInt(d) + 1
+            lo = z3.If(b > lo, b, lo)
+        elif op == 'lt':
+            b = _ceil_int(d)
+            hi = z3.If(b < hi, b, hi)
+        elif op == 'le':
+            b = z3.ToInt(d) + 1
+            hi = z3.If(b < hi, b, hi)
+    return z3.simplify(lo), z3.simplify(hi)
 
 
 def _plan_to_key(p):
